@@ -570,6 +570,10 @@ func valueFieldNilness(rv ssa.Value, field int, depth int) int {
 	return 0
 }
 
+// Nilness: +1 the value is definitely not nil (a fresh allocation, fmt.Errorf / errors.New, a
+// constructor all of whose returns are), -1 definitely nil, 0 unknown.
+func Nilness(v ssa.Value) int { return nilness(v, 0) }
+
 func nilness(v ssa.Value, depth int) int {
 	v = LoadedValue(Unwrap(v))
 	if IsNilConst(v) {
